@@ -48,8 +48,10 @@ def gen_case(rnd, tier: str, i: Any) -> Dict[str, Any]:
             tr["distributedInfo"] = {"backend": "nccl", "rank": r, "world_size": 2048}
             if rnd.random() < 0.3:
                 tr["traceEvents"] = tr["traceEvents"] * rnd.choice([1, 10, 30])       # some files beyond 64 KiB
-            files.append({"rank": r, "trace": tr, "gz": rnd.random() < 0.5,
-                          "how": rnd.choice(["write_trace", "write_trace", "dump_default", "dump_indent", "dump_compact", "update_rank_after"])})
+            how = rnd.choice(["write_trace", "write_trace", "dump_default", "dump_indent", "dump_compact", "update_rank_after", "update_rank_after"])
+            if how == "update_rank_after" and rnd.random() < 0.6 and len(tr["traceEvents"]) < 2000:
+                tr["traceEvents"] = tr["traceEvents"] * 30                           # metadata lands far behind the events
+            files.append({"rank": r, "trace": tr, "gz": rnd.random() < 0.5, "how": how})
         return {"kind": "files", "files": files, "new_rank": rnd.choice([0, 5, 12, 999])}
     c = cpdrv.gen_case(rnd, tier, i, annotation_nest=rnd.random() < 0.4)
     # rename some files to .json.gz
